@@ -37,6 +37,7 @@ POLICY = """
     <allow send_requested_reply="true" send_type="method_return"/>
     <allow send_requested_reply="true" send_type="error"/>
     <allow receive_type="method_call"/>
+    <allow receive_type="method_call" eavesdrop="true"/>
     <allow receive_type="method_return"/>
     <allow receive_type="error"/>
     <allow receive_type="signal"/>
@@ -61,6 +62,8 @@ class Session(BusSession):
         for l in CLIENTS:
             self.connect_slot(l)
             self.method(l, 'RequestName', [R.S(wk(l)), R.U(0)])
+        # the third party also eavesdrops on method calls: being handed a copy of a call must not make it a legitimate replier
+        self.method('T', 'AddMatch', [R.S(b"eavesdrop='true',type='method_call'")])
         for l in CLIENTS:
             self.take(l)
         self.slots_model = []      # list of [caller, callee, serial, age_ms]
@@ -195,6 +198,9 @@ class Session(BusSession):
                 return out
             else:
                 w(y, ('msg', '@' + x, R.MT_CALL, s))
+                if y != 'T' and self.is_open('T'):
+                    w('T', ('msg', '@' + x, R.MT_CALL, s))       # the eavesdropper's copy
+                    self.hit('call-eavesdropped')
                 if not noreply:
                     self.slots_model.append([x, y, s, 0])
                     self.hit('call-slot')
@@ -267,6 +273,8 @@ class Session(BusSession):
             # went away with the call unanswered (NoReply); no slot survives
             obs = self.observe()
             obs.pop(y, None)
+            if y != 'T' and 'T' in obs:
+                obs['T'] = [o for o in obs['T'] if not (o.kind == R.MT_CALL and o.serial == s)]     # whether the eavesdropper saw the racing call depends on the order
             mine = [o for o in obs.get(x, []) if o.sender == R.BUS and o.kind == R.MT_ERROR and o.rserial == s
                     and o.errname in (b'org.freedesktop.DBus.Error.NoReply', b'org.freedesktop.DBus.Error.ServiceUnknown', b'org.freedesktop.DBus.Error.NameHasNoOwner')]
             if len(mine) != 1:
